@@ -1536,14 +1536,17 @@ func matchExactRegex(v string) ([]string, bool) {
 		return nil, false
 	}
 
+	// Only the text anchors pin the match to the whole value. With the
+	// multi-line flag ^ and $ also match next to a newline inside the value,
+	// so such an expression does not denote a finite set of whole strings.
 	start := re.Sub[0]
-	if !(start.Op == syntax.OpBeginLine || start.Op == syntax.OpBeginText) {
+	if start.Op != syntax.OpBeginText {
 		// Regex does not begin with ^
 		return nil, false
 	}
 
 	end := re.Sub[len(re.Sub)-1]
-	if !(end.Op == syntax.OpEndLine || end.Op == syntax.OpEndText) {
+	if end.Op != syntax.OpEndText {
 		// Regex does not end with $
 		return nil, false
 	}
